@@ -253,6 +253,20 @@ def c17(rep, W, rule="C17", sections=None):
     # command(): id <-> env agreement
     cb = W.body(COMMAND)
     pvc = W.prov(cb)
+    # the values the operator wrote are parsed by clap's own typed parsers: a hand-written value parser is a transformation
+    # between "what was configured" and "what is applied" that none of the wiring obligations looks into
+    custom = []
+    nvp = 0
+    for bb, t in cb.calls():
+        if t["callee"].get("def", "").endswith("builder::arg::Arg::value_parser"):
+            nvp += 1
+            da = t["callee"].get("def_args", "")
+            targ = da[da.index("::<") + 3:-1] if "::<" in da else da
+            if not targ.startswith("clap_builder::builder::value_parser::"):
+                custom.append((cb.line_of_block(bb), targ[-90:]))
+    rep.ob(rule + ".PARSERS", ("command", "value-parsers-are-clap-builtin"), not custom,
+           "Arg::value_parser arguments that are not clap's own typed parsers: %s" % (custom or "none"), where(cb, line=custom[0][0]) if custom else where(cb))
+    rep.floor(rule + ".PARSERS", "value_parser calls in command()", nvp, 3, where(cb))
     want_env = {"data-dir": "DATA_DIR", "snapshot-versions": "SNAPSHOT_VERSIONS", "snapshot-days": "SNAPSHOT_DAYS", "allow-client-id": "CLIENT_ID", "listen": "LISTEN"}
     found = {}
     for bb, t in cb.calls():
@@ -384,8 +398,8 @@ def c13_reopen(rep, W, rule="C13"):
                "set-up statement: %s -- opening an existing database must be idempotent and non-destructive" % det, i.where())
     rep.floor(rule + ".IDEMPOTENT", "set-up statements", n, 4, where(nb))
     fsbad = W.bodies_calling(lambda c: c.get("def", "").startswith("std::fs::") and c.get("def", "").split("::")[-1] not in ("create_dir_all", "create_dir", "metadata", "read_dir", "exists"))
-    fsbad = [(b.deff, t["callee"]["def"]) for b, bb, t in fsbad if b.unit.startswith(WD.SQLITE)]
-    rep.ob(rule + ".IDEMPOTENT", ("sqlite", "no-destructive-fs-calls"), not fsbad, "file-system calls other than create_dir_all in the sqlite crate: %s" % (fsbad or "none"))
+    fsbad = [(b.deff, t["callee"]["def"]) for b, bb, t in fsbad]        # anywhere in the workspace: main() "tidying" the data directory counts
+    rep.ob(rule + ".IDEMPOTENT", ("workspace", "no-destructive-fs-calls"), not fsbad, "file-system calls other than create_dir_all / read-only queries in the workspace: %s" % (fsbad or "none"))
 
 
 def c13_written(rep, W, rule="C13"):
@@ -813,14 +827,19 @@ def c06(rep, W, rule="C06"):
                         stk.append(y)
                 rep.ob(rule + ".ACCUM", (fn, "no-chunk-skipped", S.ordinal_key(body, c, bb)), bool(starts) and not skipped,
                        "once a chunk has been received no path polls for the next chunk without appending it", where(body, bb))
-                # the loop ends only at end-of-stream: every success return of the accumulation body is under next() == None
+                # the loop ends only at end-of-stream: the accumulated bytes are handed on (helper: returned; handler: passed to
+                # the operation) only under "the stream yielded None" -- not after an Err item, not after a chunk
+                if nxt[0][1].endswith("try_next"):      # Poll<Result<Option<Bytes>, E>>
+                    endf = ("and", ("is", ("VARIANT", ("ok", core)), "ok"), ("is", ("VARIANT", ("ok", ("ok", core))), "err"))
+                else:                                   # Poll<Option<Result<Bytes, E>>>
+                    endf = ("is", ("VARIANT", ("ok", core)), "err")
                 if acc.helper is not None:
-                    end_atom = ("VARIANT", ("ok", nxt[0] if False else core))
-                    for site, term in S.exits(W, body):
-                        if S.is_error_exit(term):
-                            continue
-                        rep.ob(rule + ".ACCUM", (fn, "returns-only-at-end-of-stream"), S.all_vals(g, site, ("is", end_atom, "err")),
-                               "the helper returns the accumulated bytes only when the stream reported its end (None); offending: %s" % S.failing_vals(g, site, ("is", end_atom, "err"))[:1], where(body))
+                    ends = [site for site, term in S.exits(W, body) if not S.is_error_exit(term)]
+                else:
+                    ends = [(b_, "T") for b_, _t in S.sites_of(body, WD.op(WD.HANDLER_OP[module]))]
+                for site in ends:
+                    rep.ob(rule + ".ACCUM", (fn, "returns-only-at-end-of-stream"), S.all_vals(g, site, endf),
+                           "the accumulated bytes are handed on only when the stream reported its end (None); offending: %s" % S.failing_vals(g, site, endf)[:1], where(body))
         rep.ob(rule + ".ACCUM", (fn, "op-gets-accumulated-bytes"), True,
                "payload passed to Server::%s is %s (the accumulator%s; to_vec / clone are identity transports)" % (
                    WD.HANDLER_OP[module], P.show(acc.payload)[:80], "" if acc.helper is None else " returned by " + acc.helper[0].split("::")[-1]), where(hbody), nontrivial=False)
